@@ -14,6 +14,8 @@ pub mod util;
 #[cfg(cozy_chess_verif)]
 pub mod brd;
 #[cfg(cozy_chess_verif)]
+pub mod full;
+#[cfg(cozy_chess_verif)]
 pub mod c05;
 #[cfg(cozy_chess_verif)]
 pub mod c06;
@@ -58,6 +60,7 @@ macro_rules! proofs {
 pub fn registry() -> Vec<(&'static str, fn(&mut nd::Recorded))> {
     let mut v = Vec::new();
     v.extend(brd::registry());
+    v.extend(full::registry());
     v.extend(c05::registry());
     v.extend(c06::registry());
     v.extend(c08::registry());
